@@ -756,6 +756,36 @@ func (f *Flooder) SendFullTable(peerID identity.AgentID) {
 		allOrigins[id] = struct{}{}
 	}
 
+	// A receiver accepts one advertisement per (origin, sequence); its seen
+	// cache drops every further one. The agent table keeps one presence route
+	// per next hop, so an advertisement that was learned from two peers (the
+	// second copy after the seen-cache entry of the first had expired) has
+	// left routes with two different paths, which fall into two groups with
+	// the same origin and sequence. Replay only the largest group of each
+	// (origin, sequence), the one on the shorter path among equals; the
+	// others hold nothing but further copies of the same presence route.
+	groupSize := func(k replayKey) int {
+		return len(byOrigin[k]) + len(agentByOrigin[k]) + len(forwardByOrigin[k]) + len(domainByOrigin[k])
+	}
+	bestGroup := make(map[AdvertisementKey]replayKey)
+	for key := range allOrigins {
+		if key.origin == f.localID {
+			continue
+		}
+		ak := AdvertisementKey{OriginAgent: key.origin, Sequence: key.seq}
+		cur, ok := bestGroup[ak]
+		if !ok || groupSize(key) > groupSize(cur) ||
+			(groupSize(key) == groupSize(cur) && (len(key.path) < len(cur.path) ||
+				(len(key.path) == len(cur.path) && key.path < cur.path))) {
+			bestGroup[ak] = key
+		}
+	}
+	for key := range allOrigins {
+		if key.origin != f.localID && bestGroup[AdvertisementKey{OriginAgent: key.origin, Sequence: key.seq}] != key {
+			delete(allOrigins, key)
+		}
+	}
+
 	// Send a separate advertisement for each group
 	for key := range allOrigins {
 		originAgent := key.origin
